@@ -54,7 +54,8 @@ def oracle(ctx, deep):
         L = c["length"]
         words = [core.unhx(x) for x in order.split(",")[1:]] if order and order != "0" else []
         tmap = title_map(titles)
-        has_empty = b"" in words
+        # the open finding F7 is about lists that CONTAIN the empty string: decided from the input, not from what was read back
+        has_empty = (not isinstance(c["list"], str)) and any(w in ("", b"") for w in c["list"])
         toks = d["tokens"]
         atoms = [v for v, ty in toks if ty == 1]
         seps = [v for v, ty in toks if ty == 0]
